@@ -223,7 +223,7 @@ def run(ctx: Any, prog: Program) -> None:
     rs = merge_slots(flat(tw({}).block(bsd['unserialise'].body)))
     ctx.check('C16.Q1', ws == rs, db, bsd['serialise'], f'string dictionary: reader `{rs}`, writer `{ws}`', func='BinStrDict.serialise', text='string dictionary')
     ok = 'STRING_SEP.join(inv_list)' in ast.unparse(bsd['serialise']) and '.split(STRING_SEP)' in ast.unparse(bsd['unserialise']) and 'lzma.compress' in ast.unparse(bsd['serialise']) and 'lzma.decompress' in ast.unparse(bsd['unserialise'])
-    ctx.check('C16.Q1', ok, db, bsd['serialise'], 'dictionary strings are joined / split with STRING_SEP and lzma (de)compressed', func='BinStrDict.serialise', text='dictionary payload coding')
+    ctx.shape('C16.Q1', ok, db, bsd['serialise'], 'dictionary strings are joined / split with STRING_SEP and lzma (de)compressed', func='BinStrDict.serialise', text='dictionary payload coding')
     # resource records inside ent_(un)serialise
     es, eu = db.func('ent_serialise'), db.func('ent_unserialise')
     wres = [n for n in walk_no_nested(es) if isinstance(n, ast.For) and dotted(n.iter) == 'ent.resources']
@@ -256,7 +256,7 @@ def run(ctx: Any, prog: Program) -> None:
     order_w: List[str] = []
     for i, (rn, wa) in enumerate(zip(rnames, wargs)):
         if i == 0:
-            ctx.check('C16.Q1', rn == 'flags' and 'flags' in ast.unparse(wa), db, wa, 'first header byte carries the entity flags', func='ent_serialise', text='entity header slot 0 flags')
+            ctx.shape('C16.Q1', rn == 'flags' and 'flags' in ast.unparse(wa), db, wa, 'first header byte carries the entity flags', func='ent_serialise', text='entity header slot 0 flags')
             continue
         wcoll = sorted({x.attr for x in ast.walk(wa) if isinstance(x, ast.Attribute) and dotted(x.value) == 'ent'})
         order_w += wcoll
@@ -277,34 +277,58 @@ def run(ctx: Any, prog: Program) -> None:
     loops_r = [n.test.id for n in eu.body if isinstance(n, ast.While) and isinstance(n.test, ast.Name)]
     ctx.check('C16.Q1', yielded == ['keyvalues', 'inputs', 'outputs'] and [rcoll.get(x) for x in loops_r] == ['bases', 'keyvalues', 'inputs', 'outputs'], db, es,
               f'record order: writer iterates {yielded} (after bases), reader loops fill {[rcoll.get(x) for x in loops_r]}', func='ent_serialise', text='collection order')
-    # flag bits
-    for wfn, rfn, wvar, rvar in (('kv_serialise', 'kv_unserialise', 'value_type', 'value_ind'), ('kv_serialise', 'kv_unserialise', 'power', 'power')):
-        wsrc, rsrc = ast.unparse(db.func(wfn)), ast.unparse(db.func(rfn))
-        ok = f'{wvar} |= 128' in wsrc and f'{rvar} & 128' in rsrc and f'{rvar} & 127' in rsrc
-        ctx.check('C16.Q1', ok, db, db.func(wfn), f'high bit of `{wvar}`: set with |= 128 by the writer, must be tested (& 128) and masked (& 127) by the reader on `{rvar}`', func=wfn, text=f'flag bit {wvar}')
-    ok = 'FILE_TYPE_INDEX[res.type] | 128' in ast.unparse(es) and 'file_ind & 128' in ast.unparse(eu) and 'file_ind & 127' in ast.unparse(eu)
-    ctx.check('C16.Q1', ok, db, es, 'resource type byte: tag flag |128 / &128 / &127', func='ent_serialise', text='flag bit resource tags')
+    # flag bits: a byte into which the writer ORs 128 must be tested with & 128 and masked with & 127 by the reader
+    def and_consts(fn: ast.AST, var: str) -> Set[int]:
+        return {n.right.value for n in ast.walk(fn) if isinstance(n, ast.BinOp) and isinstance(n.op, ast.BitAnd) and dotted(n.left) == var and isinstance(n.right, ast.Constant) and isinstance(n.right.value, int)}
+
+    def or_consts(fn: ast.AST, var: str) -> Set[int]:
+        out = {n.value.value for n in ast.walk(fn) if isinstance(n, ast.AugAssign) and isinstance(n.op, ast.BitOr) and dotted(n.target) == var and isinstance(n.value, ast.Constant)}
+        out |= {n.right.value for n in ast.walk(fn) if isinstance(n, ast.BinOp) and isinstance(n.op, ast.BitOr) and var in ast.unparse(n.left) and isinstance(n.right, ast.Constant) and isinstance(n.right.value, int)}
+        return out
+    for wfn, rfn, wvar, rvar in (('kv_serialise', 'kv_unserialise', 'value_type', 'value_ind'), ('kv_serialise', 'kv_unserialise', 'power', 'power'), ('ent_serialise', 'ent_unserialise', 'FILE_TYPE_INDEX[res.type]', 'file_ind')):
+        wo, ra = or_consts(db.func(wfn), wvar), and_consts(db.func(rfn), rvar)
+        if not wo or not ra:
+            ctx.shape('C16.Q1', False, db, db.func(wfn), f'flag bit of `{wvar}` / `{rvar}` not found', func=wfn, text=f'flag bit {wvar}')
+            continue
+        bit = max(wo)
+        ctx.check('C16.Q1', bit in ra and (bit - 1) in ra and bit == 128, db, db.func(rfn), f'the writer sets bit {bit} of `{wvar}`; the reader combines `{rvar}` with {sorted(ra)}: it must test & {bit} and mask & {bit - 1}', func=wfn, text=f'flag bit {wvar}')
     ok = 'flags & EntFlags.MASK_TYPE' in ast.unparse(eu) and 'EntFlags.IS_ALIAS & flags' in ast.unparse(eu) and 'flags |= EntFlags.IS_ALIAS' in ast.unparse(es) and 'ENTITY_TYPE_2_FLAG[ent.type]' in ast.unparse(es)
-    ctx.check('C16.Q1', ok, db, es, 'entity flags: type bits through ENTITY_TYPE_2_FLAG / MASK_TYPE, alias bit both ways', func='ent_serialise', text='entity flag bits')
+    ctx.shape('C16.Q1', ok, db, es, 'entity flags: type bits through ENTITY_TYPE_2_FLAG / MASK_TYPE, alias bit both ways', func='ent_serialise', text='entity flag bits')
     # top level
     sw = tw({}, sub={'ent_serialise': 'ENT', 'ent_unserialise': 'ENT', 'base_dict.serialise': 'DICT', 'dictionary.serialise': 'DICT', 'BinStrDict.unserialise': 'DICT', 'build_blocks': '', 'compute_ent_strings': ''})
     sfn, ufn = db.func('serialise'), db.func('unserialise')
     hdr_w = [c for c in walk_no_nested(sfn) if isinstance(c, ast.Call) and dotted(c.func) == '_fmt_header.pack']
     hdr_r = [c for c in walk_no_nested(ufn) if isinstance(c, ast.Call) and dotted(c.func) == '_fmt_header.unpack']
     ok = len(hdr_w) == 1 and len(hdr_r) == 1 and [ast.unparse(a) for a in hdr_w[0].args] == ['BIN_FORMAT_VERSION', 'len(blocks)'] and "file.read(3) != b'FGD'" in ast.unparse(ufn) and "b'FGD' + _fmt_header.pack" in ast.unparse(sfn)
-    ctx.check('C16.Q1', ok, db, sfn, 'file header: magic, format version, block count', func='serialise', text='file header')
+    ctx.shape('C16.Q1', ok, db, sfn, 'file header: magic, format version, block count', func='serialise', text='file header')
     ok = 'format_version != BIN_FORMAT_VERSION' in ast.unparse(ufn)
-    ctx.check('C16.Q1', ok, db, ufn, 'the reader rejects other format versions', func='unserialise', text='version check')
+    ctx.shape('C16.Q1', ok, db, ufn, 'the reader rejects other format versions', func='unserialise', text='version check')
     wsrc, usrc = ast.unparse(sfn), ast.unparse(ufn)
     ok = ('file.write(_fmt_16bit.pack(len(classnames)))' in wsrc and 'file.write(classnames)' in wsrc and "deferred.defer(('block', id(block_ents)), _fmt_block_pos, write=True)" in wsrc
           and '[cls_size] = _fmt_16bit.unpack(file.read(2))' in usrc and 'file.read(cls_size)' in usrc and '_fmt_block_pos.unpack(file.read(_fmt_block_pos.size))' in usrc)
-    ctx.check('C16.Q1', ok, db, sfn, 'block table entry: 16-bit length, class names, (offset, size)', func='serialise', text='block table entry')
-    ok = "deferred.set_data(('block', id(block_ents)), block_off, block_len)" in wsrc and 'off, size = _fmt_block_pos.unpack' in usrc and 'file.seek(off)' in usrc and 'file.read(size)' in usrc
-    ctx.check('C16.Q1', ok, db, sfn, 'block position fields are (offset, length) in this order on both sides', func='serialise', text='block position linkage')
+    ctx.shape('C16.Q1', ok, db, sfn, 'block table entry: 16-bit length, class names, (offset, size)', func='serialise', text='block table entry')
+    sd = [c for c in ast.walk(sfn) if isinstance(c, ast.Call) and dotted(c.func) == 'deferred.set_data' and len(c.args) == 3]
+    ru = [n for n in ast.walk(ufn) if isinstance(n, ast.Assign) and isinstance(n.value, ast.Call) and dotted(n.value.func) == '_fmt_block_pos.unpack' and isinstance(n.targets[0], ast.Tuple) and len(n.targets[0].elts) == 2]
+    if len(sd) != 1 or len(ru) != 1:
+        ctx.shape('C16.Q1', False, db, sfn, 'block position set_data / unpack not found', func='serialise', text='block position linkage')
+    else:
+        sdefs = {t.id: ast.unparse(n.value) for n in ast.walk(sfn) if isinstance(n, ast.Assign) for t in n.targets if isinstance(t, ast.Name)}
+        def role(a: ast.AST) -> str:
+            d = sdefs.get(dotted(a) or '', '')
+            return 'pos' if d == 'file.tell()' else ('len' if 'file.tell() -' in d else '?')
+        roles = (role(sd[0].args[1]), role(sd[0].args[2]))
+        r_off, r_size = [dotted(e) for e in ru[0].targets[0].elts]
+        seeks = any(isinstance(c, ast.Call) and dotted(c.func) == 'file.seek' and c.args and dotted(c.args[0]) == r_off for c in ast.walk(ufn))
+        reads = any(isinstance(c, ast.Call) and dotted(c.func) == 'file.read' and c.args and dotted(c.args[0]) == r_size for c in ast.walk(ufn))
+        if '?' in roles or not (seeks and reads):
+            ctx.shape('C16.Q1', False, db, sd[0], 'roles of the block position fields not recognised', func='serialise', text='block position linkage')
+        else:
+            ctx.check('C16.Q1', roles == ('pos', 'len'), db, sd[0], f'block position: the writer stores ({ast.unparse(sd[0].args[1])}, {ast.unparse(sd[0].args[2])}) = {roles}; the reader seeks to the first field and reads as many bytes as the second',
+                      func='serialise', text='block position linkage')
     ok = 'STRING_SEP.join((ent.classname for ent in block_ents))' in wsrc and '.split(STRING_SEP)' in usrc
-    ctx.check('C16.Q1', ok, db, sfn, 'class names joined / split with STRING_SEP', func='serialise', text='class name list coding')
+    ctx.shape('C16.Q1', ok, db, sfn, 'class names joined / split with STRING_SEP', func='serialise', text='class name list coding')
     ok = wsrc.index('base_dict.serialise(file)') < wsrc.index('ent_serialise(CBaseEntity, file, base_dict)') and usrc.index('BinStrDict.unserialise(file, [])') < usrc.index("ent_unserialise(file, '_CBaseEntity_', from_dict)")
-    ctx.check('C16.Q1', ok, db, sfn, 'shared dictionary then CBaseEntity', func='serialise', text='base block order')
+    ctx.shape('C16.Q1', ok, db, sfn, 'shared dictionary then CBaseEntity', func='serialise', text='base block order')
     # ---- Q2 --------------------------------------------------------------------------------------------------
     for tbl, enum_name, enum_mod in (('VALUE_TYPE_ORDER', 'ValueTypes', fgd), ('FILE_TYPE_ORDER', 'FileType', prog.module('const'))):
         node = db.global_assign(tbl)
@@ -321,7 +345,7 @@ def run(ctx: Any, prog: Program) -> None:
         ctx.check('C16.Q2', set(listed) == set(canon.values()), db, node, f'{tbl} misses {sorted(set(canon.values()) - set(x for x in listed if x))}', func='<module>', text=f'{tbl} complete')
         ctx.check('C16.Q2', len(listed) <= 128, db, node, f'{tbl} has {len(listed)} entries; the index shares a byte with a flag bit', func='<module>', text=f'{tbl} fits 7 bits')
         idx = db.global_assign(tbl.replace('_ORDER', '_INDEX'))
-        ctx.check('C16.Q2', ast.unparse(idx) == f'{{val: ind for ind, val in enumerate({tbl})}}', db, idx, f'{tbl.replace("_ORDER", "_INDEX")} must be the enumeration of {tbl}', func='<module>', text=f'{tbl} index table')
+        ctx.shape('C16.Q2', ast.unparse(idx) == f'{{val: ind for ind, val in enumerate({tbl})}}', db, idx, f'{tbl.replace("_ORDER", "_INDEX")} must be the enumeration of {tbl}', func='<module>', text=f'{tbl} index table')
     ef = fold.enum_table('EntFlags')
     ent_types = ffold.enum_table('EntityTypes')
     mask = ef.members['MASK_TYPE'].value
@@ -334,16 +358,16 @@ def run(ctx: Any, prog: Program) -> None:
             seen[flag.value] = m.name
     ctx.check('C16.Q2', ef.members['IS_ALIAS'].value & mask == 0, db, db.cls('EntFlags'), 'IS_ALIAS overlaps the type bits', func='EntFlags', text='alias bit outside type mask')
     ok = ast.unparse(db.global_assign('ENTITY_FLAG_2_TYPE')) == '{flag: kind for kind, flag in ENTITY_TYPE_2_FLAG.items()}' and "EntFlags['TYPE_' + kind.name]" in ast.unparse(db.global_assign('ENTITY_TYPE_2_FLAG'))
-    ctx.check('C16.Q2', ok, db, db.global_assign('ENTITY_FLAG_2_TYPE'), 'ENTITY_FLAG_2_TYPE inverts ENTITY_TYPE_2_FLAG', func='<module>', text='entity flag tables inverse')
+    ctx.shape('C16.Q2', ok, db, db.global_assign('ENTITY_FLAG_2_TYPE'), 'ENTITY_FLAG_2_TYPE inverts ENTITY_TYPE_2_FLAG', func='<module>', text='entity flag tables inverse')
     # ---- Q3 --------------------------------------------------------------------------------------------------
     lk = fgd.global_assign('VALUE_TYPE_LOOKUP')
-    ctx.check('C16.Q3', ast.unparse(lk) == '{typ.value: typ for typ in ValueTypes}', fgd, lk, 'VALUE_TYPE_LOOKUP must map every ValueTypes.value to its member', func='<module>', text='VALUE_TYPE_LOOKUP from enum')
+    ctx.shape('C16.Q3', ast.unparse(lk) == '{typ.value: typ for typ in ValueTypes}', fgd, lk, 'VALUE_TYPE_LOOKUP must map every ValueTypes.value to its member', func='<module>', text='VALUE_TYPE_LOOKUP from enum')
     vals = [m.value for m in {mm.name: mm for mm in vt}.values()]
     ctx.check('C16.Q3', len(set(vals)) == len(vals) and all(isinstance(v, str) and v == v.casefold() and re.fullmatch(r'[a-z0-9_]+', v) for v in vals), fgd, fgd.cls('ValueTypes'),
               'ValueTypes values are written bare inside (...) and looked up case-folded: they must be distinct lower-case words', func='ValueTypes', text='ValueTypes values distinct lower-case')
     by_name = ffold.global_('RESTYPE_BY_NAME')
     to_name_node = fgd.global_assign('RESTYPE_TO_NAME')
-    ctx.check('C16.Q3', ast.unparse(to_name_node) == '{restype: name for name, restype in RESTYPE_BY_NAME.items()}', fgd, to_name_node, 'RESTYPE_TO_NAME is derived from RESTYPE_BY_NAME (every written name parses back to the same type)',
+    ctx.shape('C16.Q3', ast.unparse(to_name_node) == '{restype: name for name, restype in RESTYPE_BY_NAME.items()}', fgd, to_name_node, 'RESTYPE_TO_NAME is derived from RESTYPE_BY_NAME (every written name parses back to the same type)',
               func='<module>', text='RESTYPE_TO_NAME derived')
     if not isinstance(by_name, dict) or len(by_name) < 10:
         raise AnalysisError('RESTYPE_BY_NAME could not be folded')
@@ -351,7 +375,7 @@ def run(ctx: Any, prog: Program) -> None:
         ctx.check('C16.Q3', isinstance(nm, str) and re.fullmatch(r'[a-z_]+', nm) is not None, fgd, fgd.global_assign('RESTYPE_BY_NAME'), f'resource keyword {nm!r} must be a bare lower-case word', func='<module>', text=f'resource keyword {nm}')
     ep = fgd.func('EntityDef.parse')
     ok = 'RESTYPE_BY_NAME[' in ast.unparse(ep) or 'RESTYPE_BY_NAME.get' in ast.unparse(ep)
-    ctx.check('C16.Q3', ok, fgd, ep, 'EntityDef.parse resolves @resources keywords through RESTYPE_BY_NAME', func='EntityDef.parse', text='resources parsed through RESTYPE_BY_NAME')
+    ctx.shape('C16.Q3', ok, fgd, ep, 'EntityDef.parse resolves @resources keywords through RESTYPE_BY_NAME', func='EntityDef.parse', text='resources parsed through RESTYPE_BY_NAME')
     # helpers
     ht = ffold.enum_table('HelperTypes')
     impl: Dict[str, List[str]] = {}
@@ -370,7 +394,7 @@ def run(ctx: Any, prog: Program) -> None:
                   '(the last one registered wins silently)', func='HelperTypes', text=f'helper {m.name} implemented once')
     ee = fgd.func('EntityDef.export')
     ok = "self.type.value.title().replace('class', 'Class')" in ast.unparse(ee) and 'EntityTypes(token_value[1:])' in ast.unparse(fgd.func('FGD.parse_file')) and 'token_value = token_value.casefold()' in ast.unparse(fgd.func('FGD.parse_file'))
-    ctx.check('C16.Q3', ok, fgd, ee, 'entity kind: written as @<Title-cased value>, parsed by EntityTypes(case-folded token without @)', func='EntityDef.export', text='entity kind keyword')
+    ctx.shape('C16.Q3', ok, fgd, ee, 'entity kind: written as @<Title-cased value>, parsed by EntityTypes(case-folded token without @)', func='EntityDef.export', text='entity kind keyword')
     for m in {mm.name: mm for mm in ent_types}.values():
         ctx.check('C16.Q3', isinstance(m.value, str) and m.value == m.value.casefold() and m.value.endswith('class'), fgd, fgd.cls('EntityTypes'), f'EntityTypes.{m.name} = {m.value!r} must be a lower-case word ending in "class"', func='EntityTypes',
                   text=f'entity kind {m.name}')
@@ -378,20 +402,33 @@ def run(ctx: Any, prog: Program) -> None:
     kp = ast.unparse(fgd.func('KVDef._parse'))
     ke = ast.unparse(fgd.func('KVDef.export'))
     for kw in ('readonly', 'report'):
-        ctx.check('C16.Q3', f"file.write('{kw} ')" in ke and f"key_flag.casefold() == '{kw}'" in kp, fgd, fgd.func('KVDef.export'), f'keyword `{kw}` written and recognised', func='KVDef.export', text=f'keyword {kw}')
-    ok = ke.index("file.write('readonly ')") < ke.index("file.write('report ')") and kp.index("== 'readonly'") < kp.index("== 'report'")
-    ctx.check('C16.Q3', ok, fgd, fgd.func('KVDef.export'), 'readonly precedes report on both sides (the parser looks for them in that order)', func='KVDef.export', text='keyword order readonly/report')
+        ctx.shape('C16.Q3', f"file.write('{kw} ')" in ke and f"key_flag.casefold() == '{kw}'" in kp, fgd, fgd.func('KVDef.export'), f'keyword `{kw}` written and recognised', func='KVDef.export', text=f'keyword {kw}')
+    def const_line(fn: ast.AST, value: str) -> Optional[int]:
+        ls = [n.lineno for n in ast.walk(fn) if isinstance(n, ast.Constant) and n.value == value]
+        return min(ls) if ls else None
+    w_ro, w_rp = const_line(fgd.func('KVDef.export'), 'readonly '), const_line(fgd.func('KVDef.export'), 'report ')
+    p_ro, p_rp = const_line(fgd.func('KVDef._parse'), 'readonly'), const_line(fgd.func('KVDef._parse'), 'report')
+    if None in (w_ro, w_rp, p_ro, p_rp):
+        ctx.shape('C16.Q3', False, fgd, fgd.func('KVDef.export'), 'readonly/report keywords not found as literals', func='KVDef.export', text='keyword order readonly/report')
+    else:
+        ctx.check('C16.Q3', (w_ro < w_rp) == (p_ro < p_rp), fgd, fgd.func('KVDef.export'), 'the writer emits `readonly` and `report` in the opposite order to the one the parser looks for them in (the parser reads them in a fixed order)',
+                  func='KVDef.export', text='keyword order readonly/report')
     eps = ast.unparse(ep)
     ees = ast.unparse(ee)
     for kw, wr in (('input', "inp.export(file, 'input'"), ('output', "out.export(file, 'output'")):
-        ctx.check('C16.Q3', wr in ees and f"'{kw}'" in eps, fgd, ee, f'keyword `{kw}`', func='EntityDef.export', text=f'keyword {kw}')
+        ctx.shape('C16.Q3', wr in ees and f"'{kw}'" in eps, fgd, ee, f'keyword `{kw}`', func='EntityDef.export', text=f'keyword {kw}')
     hvals = {m.name: m.value for m in ht}
-    ctx.check('C16.Q3', "file.write('base(')" in ees and hvals.get('INHERIT') == 'base' and 'help_type is HelperTypes.INHERIT' in eps, fgd, ee, 'keyword `base`: written literally, parsed as HelperTypes.INHERIT', func='EntityDef.export', text='keyword base')
-    ctx.check('C16.Q3', '@resources' in ees and "io_type == '@resources'" in eps, fgd, ee, 'keyword `@resources`', func='EntityDef.export', text='keyword @resources')
-    ctx.check('C16.Q3', "file.write('\\n\\thalfgridsnap')" in ees and hvals.get('HALF_GRID_SNAP') == 'halfgridsnap', fgd, ee, 'keyword `halfgridsnap`: written literally, parsed as HelperTypes.HALF_GRID_SNAP', func='EntityDef.export', text='keyword halfgridsnap')
-    ctx.check('C16.Q3', 'HelperTypes(token_value)' in eps and "file.write(f'\\n\\t{helper.TYPE.value}(" in ees, fgd, ee, 'helpers are written by HelperTypes value and parsed by HelperTypes(value)', func='EntityDef.export', text='helper name coding')
+    ctx.shape('C16.Q3', "file.write('base(')" in ees and hvals.get('INHERIT') == 'base' and 'help_type is HelperTypes.INHERIT' in eps, fgd, ee, 'keyword `base`: written literally, parsed as HelperTypes.INHERIT', func='EntityDef.export', text='keyword base')
+    written_dir = set(re.findall(r'(@[a-z_]+)', ' '.join(str(n.value) for n in ast.walk(ee) if isinstance(n, ast.Constant) and isinstance(n.value, str))))
+    compared_dir = {n.comparators[0].value for n in ast.walk(ep) if isinstance(n, ast.Compare) and dotted(n.left) == 'io_type' and isinstance(n.comparators[0], ast.Constant)}
+    if not written_dir or not compared_dir:
+        ctx.shape('C16.Q3', False, fgd, ee, 'directive keywords not found', func='EntityDef.export', text='keyword @resources')
+    for kw_ in sorted(written_dir):
+        ctx.check('C16.Q3', kw_ in compared_dir, fgd, ee, f'EntityDef.export writes the directive `{kw_}` but EntityDef.parse only recognises {sorted(compared_dir)}', func='EntityDef.export', text=f'keyword {kw_}')
+    ctx.shape('C16.Q3', "file.write('\\n\\thalfgridsnap')" in ees and hvals.get('HALF_GRID_SNAP') == 'halfgridsnap', fgd, ee, 'keyword `halfgridsnap`: written literally, parsed as HelperTypes.HALF_GRID_SNAP', func='EntityDef.export', text='keyword halfgridsnap')
+    ctx.shape('C16.Q3', 'HelperTypes(token_value)' in eps and "file.write(f'\\n\\t{helper.TYPE.value}(" in ees, fgd, ee, 'helpers are written by HelperTypes value and parsed by HelperTypes(value)', func='EntityDef.export', text='helper name coding')
     ok = "file.write('(bool)')" in ast.unparse(fgd.func('IODef.export')) and "VALUE_TYPE_LOOKUP['bool'] = ValueTypes.BOOL" in fgd.text
-    ctx.check('C16.Q3', ok, fgd, fgd.func('IODef.export'), 'I/O boolean is written as (bool), which the lookup table accepts', func='IODef.export', text='io bool alias')
+    ctx.shape('C16.Q3', ok, fgd, fgd.func('IODef.export'), 'I/O boolean is written as (bool), which the lookup table accepts', func='IODef.export', text='io bool alias')
     # ---- Q4 --------------------------------------------------------------------------------------------------
     kinds = {'SPAWNFLAGS': vt.members['SPAWNFLAGS'], 'CHOICES': vt.members['CHOICES'], 'BOOL': vt.members['BOOL'], 'STRING': vt.members['STRING']}
     raw_slots: List[Tuple[ast.AST, str]] = []
@@ -450,7 +487,7 @@ def run(ctx: Any, prog: Program) -> None:
     # _write_longstring
     wl = fgd.func('_write_longstring')
     wsrc = ast.unparse(wl)
-    ctx.check('C16.Q4', 'remaining = _fgd_escape(extended, text)' in wsrc, fgd, wl, 'long strings are escaped before they are split', func='_write_longstring', text='escape before split')
+    ctx.shape('C16.Q4', 'remaining = _fgd_escape(extended, text)' in wsrc, fgd, wl, 'long strings are escaped before they are split', func='_write_longstring', text='escape before split')
     fixed = [n for n in ast.walk(wl) if isinstance(n, ast.Assign) and dotted(n.targets[0]) == 'split_pos' and dotted(n.value) == 'LIMIT']
     if len(fixed) != 1:
         raise AnalysisError('_write_longstring: fixed-position cut not found')
@@ -463,16 +500,16 @@ def run(ctx: Any, prog: Program) -> None:
     ctx.check('C16.Q4', guard, fgd, fixed[0], 'the cut at exactly LIMIT characters may fall between a backslash and the character it escapes; the two pieces are tokenised separately, so the cut position must be moved off '
               'an odd run of trailing backslashes', func='_write_longstring', text='fixed cut checks for a split escape')
     ok = "sections.append(f'\"{remaining[:split_pos]}\"')" in wsrc and "(' +\\n' + indent).join(sections)" in wsrc
-    ctx.check('C16.Q4', ok, fgd, wl, 'pieces are quoted individually and joined with +', func='_write_longstring', text='pieces quoted and joined with +')
+    ctx.shape('C16.Q4', ok, fgd, wl, 'pieces are quoted individually and joined with +', func='_write_longstring', text='pieces quoted and joined with +')
     ok = "split_pos = remaining.rfind('\\\\n', 0, LIMIT) + 2" in wsrc and "split_pos = remaining.rfind(' ', 0, LIMIT) + 1" in wsrc
-    ctx.check('C16.Q4', ok, fgd, wl, 'separator cuts are placed after the complete separator', func='_write_longstring', text='separator cuts')
+    ctx.shape('C16.Q4', ok, fgd, wl, 'separator cuts are placed after the complete separator', func='_write_longstring', text='separator cuts')
     pf = fgd.func('FGD.parse_file')
     tk = [c for c in ast.walk(pf) if isinstance(c, ast.Call) and dotted(c.func) == 'Tokenizer']
     kws = {k.arg: (k.value.value if isinstance(k.value, ast.Constant) else None) for k in tk[0].keywords} if tk else {}
     ctx.check('C16.Q4', len(tk) == 1 and kws.get('string_bracket') is False and kws.get('colon_operator') is True and kws.get('plus_operator') is True and kws.get('allow_escapes', True) is True, fgd, tk[0] if tk else pf,
               'parse_file must tokenise with colon and plus operators, without bracket strings, decoding escapes', func='FGD.parse_file', text='tokenizer options')
     rc = ast.unparse(fgd.func('_read_colon_list'))
-    ctx.check('C16.Q4', 'token is Token.PLUS' in rc and 'strings[-1] += tok.expect(Token.STRING)' in rc, fgd, fgd.func('_read_colon_list'), 'the reader concatenates +-joined pieces', func='_read_colon_list', text='reader joins + pieces')
+    ctx.shape('C16.Q4', 'token is Token.PLUS' in rc and 'strings[-1] += tok.expect(Token.STRING)' in rc, fgd, fgd.func('_read_colon_list'), 'the reader concatenates +-joined pieces', func='_read_colon_list', text='reader joins + pieces')
     # ---- Q5 --------------------------------------------------------------------------------------------------
     edb = db.methods('EngineDB')
     pb, ge, gf = edb['_parse_block'], edb['get_ent'], edb['get_fgd']
@@ -490,20 +527,24 @@ def run(ctx: Any, prog: Program) -> None:
         ctx.check('C16.Q5', bool(rets) and not bad, db, bad[0] if bad else fn, f'{fname} returns `{ast.unparse(bad[0].value)[:50] if bad else "?"}`, which is not an object created in this call: definitions must not be shared between entities '
                   '(lookup results would depend on the order of earlier lookups)', func=fname, text=f'{fname} returns a fresh {cname}')
     ok = 'classes, data = self.unparsed[index]' in psrc and any(isinstance(s, ast.If) and ast.unparse(s.test) == 'not data' and isinstance(s.body[0], ast.Return) for s in pb.body)
-    ctx.check('C16.Q5', ok, db, pb, '_parse_block returns early when the block has already been parsed', func='EngineDB._parse_block', text='early return on blank slot')
-    ctx.check('C16.Q5', "self.unparsed[index] = ((), b'')" in psrc, db, pb, 'the parsed block is blanked so it is never parsed twice (a second parse would replace entities other callers already hold)',
-              func='EngineDB._parse_block', text='block slot blanked')
+    ctx.shape('C16.Q5', ok, db, pb, '_parse_block returns early when the block has already been parsed', func='EngineDB._parse_block', text='early return on blank slot')
+    blank = [n for n in ast.walk(pb) if isinstance(n, ast.Assign) and isinstance(n.targets[0], ast.Subscript) and dotted(n.targets[0].value) == 'self.unparsed']
+    if not blank:
+        ctx.check('C16.Q5', False, db, pb, '_parse_block never overwrites its slot of self.unparsed: the block is parsed again on the next lookup, replacing entities other callers already hold', func='EngineDB._parse_block', text='block slot blanked')
+    else:
+        ctx.shape('C16.Q5', "self.unparsed[index] = ((), b'')" in psrc, db, blank[0], 'slot overwritten with the empty marker', func='EngineDB._parse_block', text='block slot blanked')
     blank_idx = psrc.find("self.unparsed[index] = ((), b'')")
     ok = blank_idx >= 0 and 'self.get_ent(base)' in psrc and psrc.index('self.get_ent(base)') > blank_idx
     ctx.check('C16.Q5', ok, db, pb, 'bases are resolved (possibly parsing other blocks) only after this block is marked parsed, so mutual references cannot recurse forever', func='EngineDB._parse_block', text='bases resolved after blanking')
     gsrc = ast.unparse(ge)
     ok = 'if isinstance(ent_info, EntityDef):\n        return ent_info' in gsrc and 'self._parse_block(ent_info)' in gsrc and 'classname.casefold()' in gsrc
-    ctx.check('C16.Q5', ok, db, ge, 'get_ent returns the cached definition or parses exactly the block the placeholder names', func='EngineDB.get_ent', text='get_ent cache / placeholder')
+    ctx.shape('C16.Q5', ok, db, ge, 'get_ent returns the cached definition or parses exactly the block the placeholder names', func='EngineDB.get_ent', text='get_ent cache / placeholder')
     fsrc = ast.unparse(gf)
-    ok = 'self._parse_block(i)' in fsrc and 'ent_unserialise' not in fsrc and 'copy.deepcopy(self.fgd)' in fsrc
+    calls_gf = {dotted(c.func) for c in ast.walk(gf) if isinstance(c, ast.Call)}
+    ok = 'self._parse_block' in calls_gf and 'ent_unserialise' not in calls_gf
     ctx.check('C16.Q5', ok, db, gf, 'get_fgd parses through the same _parse_block and hands out a deep copy', func='EngineDB.get_fgd', text='get_fgd shares _parse_block')
     ok = 'else:\n            ent.bases.append(cbase_entity)' in psrc or 'ent.bases.append(cbase_entity)' in psrc
-    ctx.check('C16.Q5', ok, db, pb, 'entities without bases inherit from CBaseEntity in the lazy path as well', func='EngineDB._parse_block', text='implicit base')
+    ctx.shape('C16.Q5', ok, db, pb, 'entities without bases inherit from CBaseEntity in the lazy path as well', func='EngineDB._parse_block', text='implicit base')
 
 
 MUTANTS: List[Dict[str, Any]] = [
